@@ -2,7 +2,7 @@
 from .. import machine as M
 
 DRIVERS = ["drv_machine"]
-GENERATED = ["Handlers", "Markers"]
+GENERATED = ["Handlers", "Markers", "MiscHandler"]
 
 
 def lbl(s):
@@ -20,10 +20,12 @@ def expected_file_header(cfg, f):
         mode = {("100644", "100755"): "mode +x", ("100755", "100644"): "mode -x"}.get((a, b), f"mode {a} {arrow} {b}")
     if k == "plain":
         t = f"{lbl(d['lblModified'])}{old} {arrow} {new}"
-    elif k in ("renamed", "renamed_changed"):
+    elif k in ("renamed", "renamed_changed", "renamed_binary_changed"):
         t = f"{lbl(d['lblRenamed'])}{old} {arrow} {new}"
-    elif k == "copied":
+    elif k in ("copied", "copied_binary_changed"):
         t = f"{lbl(d['lblCopied'])}{old} {arrow} {new}"
+    elif k == "binary_deleted":
+        t = f"{lbl(d['lblRemoved'])}{old} (binary file)"
     elif k in ("added", "empty_added", "submodule_added"):
         t = f"{lbl(d['lblAdded'])}{new}"
     elif k == "binary_added":
@@ -39,8 +41,43 @@ def expected_file_header(cfg, f):
     return M.canon_text("file", t)
 
 
+ALL_KINDS = M.FILE_KINDS + M.EXTRA_FILE_KINDS
+BINARY_KINDS = ["binary", "binary_added", "binary_deleted", "binary_mode_changed", "renamed_binary_changed", "copied_binary_changed",
+                "binary_noindex"]
+
+
+def binary_family(ctx, rng):
+    """(cfg, lines, files) for every kind of section with a `Binary files` line x {first, after another section} x
+    {last, before another section, before a commit block and a section, before a second section of the same kind}"""
+    out = []
+    for _ in range(ctx.n(1, 12)):
+        for kind in BINARY_KINDS:
+            for before in (False, True):
+                for after in ("end", "diff", "commit", "same"):
+                    cfg = M.gen_cfg(rng, color_only=False)
+                    cfg.d["fileRaw"] = 0; cfg.d["fileOmit"] = 0
+                    prefixes = rng.choice([("a/", "b/")] * 3 + [("i/", "w/"), ("", "")])
+                    others = [k for k in ALL_KINDS if k != "binary_noindex"]
+                    files, lines = [], []
+                    def add(k):
+                        f = M.gen_file(rng, kind=k, prefixes=prefixes)
+                        f["first_line"] = len(lines)
+                        lines.extend(f["lines"]); files.append(f)
+                    if before:
+                        add(rng.choice(others))
+                    add(kind)
+                    if after == "commit":
+                        lines.extend(M.gen_commit(rng))
+                    if after != "end":
+                        add(kind if after == "same" else rng.choice(others))
+                    out.append((cfg, lines, files))
+    return out
+
+
 def run(ctx, rep):
-    rep.rule = ("git diffs over all 12 file-event kinds x path shapes (spaces, non-ASCII, mnemonic prefixes, /dev/null sides) x "
+    rep.rule = ("git diffs over all 19 file-section kinds (incl. renamed/copied binary file with changes, deleted binary file, binary file "
+                "with a mode change; every kind with a `Binary files` line also first/after a section and last/before a section/before a "
+                "commit block/twice) x path shapes (spaces, non-ASCII, mnemonic prefixes, /dev/null sides) x "
                 "hunks present/absent x neighbours, plus plain diff -u; label/arrow/style settings random; non-trivial = >= 2 "
                 "sections or a rename/copy/mode/binary event; distinct by (config, input)")
     rng = ctx.rng
@@ -50,7 +87,9 @@ def run(ctx, rep):
         cfg.d["fileRaw"] = 0; cfg.d["fileOmit"] = 0
         r = rng.random()
         if r < 0.7:
-            lines, files = M.gen_git_diff(rng)
+            # one time in three the kinds are drawn from all shapes gen_file knows (incl. deleted binary file, binary file + mode)
+            kinds = [rng.choice(ALL_KINDS) for _ in range(4)] if rng.random() < 0.35 else None
+            lines, files = M.gen_git_diff(rng, kinds=kinds)
             src = "git"
         elif r < 0.82:
             # `git diff` during a merge: one combined hunk, with conflict regions (sometimes as the first thing in the hunk)
@@ -66,6 +105,10 @@ def run(ctx, rep):
             lines, files = M.gen_plain_diff(rng)
             src = "plain"
         cases.append((cfg, [l.encode() for l in lines])); meta.append((cfg, lines, files, src))
+    # every section shape with a `Binary files` line x what comes before x what comes after (the header of such a section is
+    # written late - at the next `diff` / `commit` line or at the end of input - or, after rename / copy lines, at once)
+    for cfg, lines, files in binary_family(ctx, rng):
+        cases.append((cfg, [l.encode() for l in lines])); meta.append((cfg, lines, files, "git"))
     res = M.observe(ctx, cases)
     for (cfg, lines, files, src), (impl, model) in zip(meta, res):
         case = dict(args=cfg.args(), model_cfg=cfg.d, input="\n".join(lines), source=src)
@@ -81,7 +124,12 @@ def run(ctx, rep):
         rep.corr_case("machine.run", not dis, dict(case, disagreement=dis[:2]))
         squeeze = lambda t: " ".join(t.split())       # box decoration pads the path with one more space
         got = [squeeze(t) for k, t in impl.rows if k == "file"]
-        want = [squeeze(expected_file_header(cfg, f)) for f in files if f["kind"] != "binary_noindex"]
+        headed = [f for f in files if f["kind"] != "binary_noindex"]      # the sections that have a file header
+        want = [squeeze(expected_file_header(cfg, f)) for f in headed]
+        # a binary file with a mode change: the header names the file and the mode change; whether it also says
+        # ` (binary file)` is not part of the property (delta does not say it there)
+        if len(got) == len(want):
+            got = [g.replace(" (binary file)", "") if f["kind"] == "binary_mode_changed" else g for g, f in zip(got, headed)]
         for f in files:
             if f["kind"] == "binary_noindex" and not any(k == "raw" and t == f["lines"][-1] for k, t in impl.rows):
                 rep.violation("file-header:binary_noindex", f"the line {f['lines'][-1]!r} (two different paths) is not shown as it is", case)
@@ -89,8 +137,11 @@ def run(ctx, rep):
             j = next((j for j, (a, b) in enumerate(zip(got, want)) if a != b), min(len(got), len(want)))
             g = got[j] if j < len(got) else None
             w = want[j] if j < len(want) else None
-            kind = files[min(j, len(files) - 1)]["kind"]
+            kind = headed[min(j, len(headed) - 1)]["kind"] if headed else files[-1]["kind"]
             sig = "file-header:" + kind
+            if j >= 1 and len(got) > len(want) and (j >= len(want) or (j + 1 < len(got) and got[j + 1] == want[j])):
+                # as expected up to section j-1, then one more header, then the header section j should have (or the end)
+                sig = "file-header:second-header:" + headed[j - 1]["kind"]
             # plain diff: an added line `++ x` / a removed line `-- x` look like a header line
             if src == "plain" and len(got) > len(want) and any(l.startswith("+++ ") and not l.startswith("+++ y/") for l in lines):
                 sig = "plain-diff-plusplus-body-taken-as-header"
